@@ -39,6 +39,11 @@ def config_histories(tier, rng):
                         break
             else:
                 hs.append({"base": 0, "cfg": muxgen.DEFAULT_CFG, "ops": [{"add": muxgen.tc(kind, **kw)}] + samples})
+    # long parameter sets (each at most 65535 bytes; together around and beyond 65536: any 16-bit arithmetic on their combined length shows here)
+    for ns, npp in ((40000, 30000), (65535, 4), (65535, 65535), (4, 65535), (32768, 32765), (32768, 32764), (255, 255)):
+        sps = bytes([0x67] + [(j * 7 + ns) & 255 for j in range(ns - 1)]).hex()
+        pps = bytes([0x68] + [(j * 5 + npp) & 255 for j in range(npp - 1)]).hex()
+        hs.append({"base": 0, "cfg": muxgen.DEFAULT_CFG, "ops": [{"add": muxgen.tc("avc", sps=sps, pps=pps)}] + samples})
     # parameter sets that look like Annex B byte streams (start codes, emulation prevention): they are opaque bytes to the muxer
     ps = muxgen.structured_param_sets()
     for i, sps in enumerate(ps):
